@@ -13,7 +13,7 @@ from vcommon import VERIF  # noqa: E402
 KNAME = {v: k for k, v in KIND.items()}
 FUNCTIONS = ["vm::Runtime::run_n_steps", "vm::Runtime::run_threads_round_robin", "vm::Runtime::finish_thread_turn",
              "vm::Runtime::drain_new_threads", "vm::Runtime::update_status_helper", "vm::Runtime::try_get_main", "vm::Runtime::main",
-             "vm::Runtime::top", "vm::VmGreenThread::can_run", "vm::VmGreenThread::status"]
+             "vm::Runtime::top", "vm::VmGreenThread::can_run", "vm::VmGreenThread::status", "vm::VmGreenThread::run_n_steps", "vm::VmGreenThread::validate"]
 
 
 class Ctx:
